@@ -141,6 +141,26 @@ where
         self.history.hash(state);
         self.timers_set.hash(state);
         self.network.hash(state);
+        self.crashed.hash(state);
+        state.write_usize(self.pending_random_choices().count());
+        for (index, choices) in self.pending_random_choices() {
+            index.hash(state);
+            choices.hash(state);
+        }
+    }
+}
+
+impl<A: Actor, H> ActorModelState<A, H> {
+    /// The actors (by index) that have pending random choices, with those choices. Actors without
+    /// any are skipped so that identity does not depend on how `random_choices` is padded.
+    fn pending_random_choices(
+        &self,
+    ) -> impl Iterator<Item = (usize, &HashableHashMap<String, Vec<A::Random>>)> {
+        self.random_choices
+            .iter()
+            .enumerate()
+            .filter(|(_, choices)| !choices.map.is_empty())
+            .map(|(index, choices)| (index, &choices.map))
     }
 }
 
@@ -157,6 +177,10 @@ where
             && self.history.eq(&other.history)
             && self.timers_set.eq(&other.timers_set)
             && self.network.eq(&other.network)
+            && self.crashed.eq(&other.crashed)
+            && self
+                .pending_random_choices()
+                .eq(other.pending_random_choices())
     }
 }
 
